@@ -157,7 +157,15 @@ def analyse(prog, func, string_param_reader=None, _ret_sink=None, _stack=()):
                     if ent is not None:
                         sites[0] += 1
                         new = {f for f in new if f[1] != ent}
-                        if not zero_tail(ent, args[si] if si is not None and si < len(args) else None, whole):
+                        # copying a string literal together with its terminator (memcpy(d, "text", sizeof("text"))) terminates
+                        lit_with_nul = False
+                        if name in ('memcpy', 'memmove', '__builtin_memcpy') and len(args) >= 3:
+                            s_ = strip(args[1])
+                            n_ = strip(args[2])
+                            if s_ is not None and s_.k == 'StringLiteral' and n_ is not None and n_.get('v') is not None and \
+                                    n_.get('v') >= s_.get('slen', 0) + 1:
+                                lit_with_nul = True
+                        if not lit_with_nul and not zero_tail(ent, args[si] if si is not None and si < len(args) else None, whole):
                             new.add(('unterm', ent, e.id))
             elif name in TERMINATING:
                 di = TERMINATING[name]
